@@ -17,6 +17,9 @@ CLAIMS = {
  'C20': dict(text='Differential: the real interpreter and the model evaluator both run the real debugger.lisp — (debug-eval (quote P) nil nil) detached and attached with answer sequences all STEP-IN / all STEP-OVER / pseudo-random, scripted through hook H3 and consumed exactly when the evaluator blocks in receive — and value / signal / output are compared with direct evaluation of P (the oracle) and, including the whole stream of debugger messages, with the model. Lean theorems (Props/C20.lean) cover what the stepping evaluator is built from: detached, receive answers nil and send is a no-op, so every step is a step over; make-function builds exactly the closures lambda builds; call-native-function applies a native exactly as the evaluator does; destructure-function returns exactly the components of a closure; with-current-module is the evaluator\'s global lookup.',
              note='partial: the agreement of debug-eval with eval is established by differential execution, not by a theorem about debugger.lisp; known finding F22 (ill-formed programs, depth); three defects of the stepping evaluator on well-formed programs were repaired (F26-F28)',
              technique='Lean 4 proof of the building blocks + five-way differential correspondence (real/model x debug-eval/eval x answer sequences)', ref='5/C20'),
+ 'C16': dict(text='Lean theorems (Props/C16.lean) about the ACTUAL bodies of the prelude (Generated/Prelude.lean, regenerated from prelude.lisp on every run and compared with what the model binds after loading it): length returns the number of elements for every list; range n is 0..n-1 for every n >= 0 and empty for every negative n; reverse reverses every list; foldl folds left for every list and every pure function value (native or closure), in depth independent of the length; when / and / not expand to the documented if-forms with every operand occurring once. Tied to the Rust interpreter by differential execution of every listed function and macro (lists of many lengths, native / closure / variadic / signalling / side-effecting function arguments, traced control macros) against the model and the documented meaning (Python).',
+             note='partial: map, foldr, zip, enumerate, append, concat, last, init, apply, the comparison and variadic arithmetic functions and the macros let, block, case, or, try/catch/throw are covered by the differential check with the Python specification, not by a theorem; known finding F20 (apply on fixed-arity functions)',
+             technique='Lean 4 proof (symbolic execution of the generated prelude bodies, induction on lists / integers) + three-way differential correspondence', ref='5/C16'),
  'C05': dict(text='Lean theorems (Props/C05.lean over Spec/RefEval.lean): a reference big-step semantics of the core language written from the property (operator first, operands left to right, first signal wins, closures capture environment and module of their creation, parameters bound over the CLOSURE\'s environment, exact arity unless a rest parameter takes the surplus, tail positions keep the depth) is deterministic, and the evaluator model realises EVERY derivation of it (eval_realises_reference): whatever value or signal the reference assigns, the evaluator computes. Tied to eval/mod.rs by differential execution of generated well- and ill-formed programs against the model and an independent Python reference evaluator.',
              note='trusted: Lean kernel; the reference semantics as the statement of the property; evaluator model tied by differential execution; the correspondence check',
              technique='Lean 4 refinement proof (induction on reference derivations) + three-way differential correspondence', ref='5/C05'),
